@@ -9,6 +9,8 @@ import (
 	"errors"
 	"fmt"
 	"net"
+	"strconv"
+	"strings"
 
 	_ "github.com/mattn/go-sqlite3"
 )
@@ -42,9 +44,9 @@ func loadRecords(db *sql.DB) (map[string]*Record, error) {
 		if err := rows.Scan(&mac, &ip, &expiry, &hostname); err != nil {
 			return nil, fmt.Errorf("failed to scan row: %w", err)
 		}
-		hwaddr, err := net.ParseMAC(mac)
+		hwaddr, err := parseHWAddr(mac)
 		if err != nil {
-			return nil, fmt.Errorf("malformed hardware address: %s", mac)
+			return nil, err
 		}
 		ipaddr := net.ParseIP(ip)
 		if ipaddr.To4() == nil {
@@ -56,6 +58,28 @@ func loadRecords(db *sql.DB) (map[string]*Record, error) {
 		return nil, fmt.Errorf("failed lease database row scanning: %w", err)
 	}
 	return records, nil
+}
+
+// parseHWAddr parses a hardware address in the form saveIPAddress stores it
+// (net.HardwareAddr.String()). net.ParseMAC only accepts 6, 8 and 20 byte
+// addresses, but DHCPv4 clients may send any length from 0 to 16 bytes, and a
+// lease that was handed out must not make the database unloadable. A single
+// hex digit is accepted because sqlite stores an all-digit one-byte address
+// as an integer.
+func parseHWAddr(s string) (net.HardwareAddr, error) {
+	if s == "" {
+		return net.HardwareAddr{}, nil
+	}
+	parts := strings.Split(s, ":")
+	hwaddr := make(net.HardwareAddr, len(parts))
+	for i, part := range parts {
+		b, err := strconv.ParseUint(part, 16, 8)
+		if err != nil || len(part) > 2 {
+			return nil, fmt.Errorf("malformed hardware address: %s", s)
+		}
+		hwaddr[i] = byte(b)
+	}
+	return hwaddr, nil
 }
 
 // saveIPAddress writes out a lease to storage
